@@ -1294,3 +1294,6 @@ def run(repo, chk, tier):
     from .c20_thin import check_accept_bound
 
     check_accept_bound(repo, chk)
+    from .c20_thin import check_multi_sampling
+
+    check_multi_sampling(repo, chk)
